@@ -99,6 +99,23 @@ pub fn run(c: &mut Ctx) {
 white space / comments / EOLs / name and string escapes / number spellings / object order / subsection splits / xref stream W and Index / object streams / \
 indirect Lengths / Flate + PNG predictor on structural streams / junk before the header; one counter per choice. Oracle = the abstract document. \
 Non-trivial = every case (distinct by file bytes).".into();
+    // prelude: a process that loads well-formed files has usually loaded damaged ones before. 40 files whose 64 objects and whose
+    // trailer nest deeper than the parser accepts are loaded first (and rejected object by object) on this thread and on the pool's
+    // worker threads; nothing of that may be left behind in per-thread parser state when the well-formed files below are loaded.
+    if c.only.is_none() {
+        let deep = format!("{}1{}", "[".repeat(200), "]".repeat(200));
+        for k in 0..160u32 {
+            let mut f = b"%PDF-1.4\n".to_vec(); let mut offs = vec![];
+            // (the trailer is parsed on the calling thread, once per file: 160 files; the first 40 carry 64 objects for the workers)
+            for n in 1..=(if k < 40 { 64u32 } else { 1 }) { offs.push(f.len()); f.extend_from_slice(format!("{} 0 obj\n{}\nendobj\n", n, deep).as_bytes()); }
+            let x = f.len();
+            f.extend_from_slice(format!("xref\n0 {}\n0000000000 65535 f \n", offs.len() + 1).as_bytes());
+            for o in &offs { f.extend_from_slice(format!("{:010} 00000 n \n", o).as_bytes()); }
+            f.extend_from_slice(format!("trailer\n<</Size 65/Root 1 0 R/K{} {}>>\nstartxref\n{}\n%%EOF", k, deep, x).as_bytes());
+            let _ = guard(|| Document::load_mem(&f));
+            c.count("prelude.over_deep_files");
+        }
+    }
     let n = c.n(1500, 25000);
     let mut counters = Counters::new();
     for i in 0..n {
